@@ -346,7 +346,7 @@ PROPS["C01"] = {
     "title": "Generated moves are exactly the legal moves of chess",
     "groups": [
         {"crate": "core", "module": "lemmas", "timeout_q": 600},
-        {"crate": "core", "module": "c01_units", "flags": NODEF + STUB, "timeout_q": 900, "timeout_t": 3000, "mem_q": 10, "jobs": 8,
+        {"crate": "core", "module": "c01_units", "flags": NODEF + STUB, "timeout_q": 900, "timeout_t": 3000, "mem_q": 10, "mem_t": 40, "jobs": 8, "jobs_t": 2,
          "seeded_family": {"pattern": r"_k_(\d+)$", "count": 1, "always": KING_ALWAYS, "thorough_all": False, "thorough_count": 6}},
     ],
     "functions": ["chess_movegen iter/pieces.rs: PieceType::legals::<IN_CHECK|NO_CHECK> for Knight/Bishop/Rook/Queen, Pawn::legals (pushes, captures, promotion flag, en passant via is_legal_en_passant), King::king_legals (steps + castling), check_mask, is_legal_king_position",
